@@ -65,13 +65,13 @@ type goPanic struct {
 type RuntimePanic struct{ msg string }
 
 type Interp struct {
-	prog      *ssa.Program
-	mainPkg   *ssa.Package
-	tt        *TermTable
-	solver    *Solver
-	globals   map[*ssa.Global]*Val
-	fnInfos   map[*ssa.Function]*fnInfo
-	zeroCache map[types.Type]Val
+	prog       *ssa.Program
+	mainPkg    *ssa.Package
+	tt         *TermTable
+	solver     *Solver
+	globals    map[*ssa.Global]*Val
+	fnInfos    map[*ssa.Function]*fnInfo
+	zeroCache  map[types.Type]Val
 	constCache map[*ssa.Const]Val
 	intrinsics map[string]func(in *Interp, fr *frame, args []Val) Val
 	implCache  map[[2]types.Type]bool
@@ -79,64 +79,64 @@ type Interp struct {
 	mapNondet  bool
 
 	// exploration state
-	prefix  []pfx
-	trace   []decisionRec
-	pc      []*Term
-	pcSet   map[int]bool
-	pending []pendingPath
-	model   Model
-	stats   PathStats
-	cexs    []Counterexample
-	cexCount map[string]int
-	maxCexPerKey int
-	maxPaths  int
-	maxSteps  int64
+	prefix         []pfx
+	trace          []decisionRec
+	pc             []*Term
+	pcSet          map[int]bool
+	pending        []pendingPath
+	model          Model
+	stats          PathStats
+	cexs           []Counterexample
+	cexCount       map[string]int
+	maxCexPerKey   int
+	maxPaths       int
+	maxSteps       int64
 	feasTimeoutMs  int
 	obligTimeoutMs int
-	obligLog  func([]*Term, Result)
-	exitExpected bool
+	obligLog       func([]*Term, Result)
+	exitExpected   bool
 
 	// per-path state
-	steps      int64
-	nondet     []NondetRec
-	obs        []obsRec
-	varCounter int
-	env        map[string]Str
-	stdout     []Str
-	stderr     []Str
-	reachPath  []string
-	termWidth  int
+	steps        int64
+	nondet       []NondetRec
+	obs          []obsRec
+	varCounter   int
+	env          map[string]Str
+	stdout       []Str
+	stderr       []Str
+	reachPath    []string
+	termWidth    int
 	assumedKnown []string
-	callDepth  int
-	timeCounter int
+	callDepth    int
+	timeCounter  int
 
 	// per-item
-	shape     map[string]int
-	reach     map[string]int
-	funcsSeen map[*ssa.Function]bool
-	stubsSeen map[string]int
-	witnesses []Witness
-	witnessEvery int
+	shape         map[string]int
+	reach         map[string]int
+	funcsSeen     map[*ssa.Function]bool
+	stubsSeen     map[string]int
+	witnesses     []Witness
+	witnessEvery  int
 	knownFindings map[string]bool
-	kfHits    map[string]int
+	kfHits        map[string]int
 
-	tagOverride map[tagKey]Str
-	cur *frame
-	dom map[int]*byteDom
-	multi map[int]bool
-	epoch uint32
-	noDom bool
-	sharing *Sharing
-	curItem Item
-	startPrefix []pfx
-	lastReset int
-	traceN int
-	itemEpoch int
-	touched []*fnInfo
-	domCheckEvery int
+	tagOverride        map[tagKey]Str
+	cur                *frame
+	dom                map[int]*byteDom
+	multi              map[int]bool
+	epoch              uint32
+	noDom              bool
+	sharing            *Sharing
+	curItem            Item
+	startPrefix        []pfx
+	lastReset          int
+	traceN             int
+	itemEpoch          int
+	touched            []*fnInfo
+	domCheckEvery      int
 	osStdout, osStderr *Val
-	rtypePtr  types.Type
-	errorType types.Type
+	rtypePtr           types.Type
+	errorType          types.Type
 }
 
 type Witness struct {
@@ -148,27 +148,27 @@ type Witness struct {
 func NewInterp(prog *ssa.Program, mainPkg *ssa.Package) *Interp {
 	in := &Interp{
 		prog: prog, mainPkg: mainPkg,
-		tt:        NewTermTable(),
-		globals:   map[*ssa.Global]*Val{},
-		fnInfos:   map[*ssa.Function]*fnInfo{},
-		zeroCache: map[types.Type]Val{},
-		constCache: map[*ssa.Const]Val{},
-		implCache: map[[2]types.Type]bool{},
-		pcSet:     map[int]bool{},
-		cexCount:  map[string]int{},
-		maxCexPerKey: 2,
-		maxSteps:  3_000_000,
-		feasTimeoutMs: 10000,
+		tt:             NewTermTable(),
+		globals:        map[*ssa.Global]*Val{},
+		fnInfos:        map[*ssa.Function]*fnInfo{},
+		zeroCache:      map[types.Type]Val{},
+		constCache:     map[*ssa.Const]Val{},
+		implCache:      map[[2]types.Type]bool{},
+		pcSet:          map[int]bool{},
+		cexCount:       map[string]int{},
+		maxCexPerKey:   2,
+		maxSteps:       3_000_000,
+		feasTimeoutMs:  10000,
 		obligTimeoutMs: 60000,
-		reach:     map[string]int{},
-		funcsSeen: map[*ssa.Function]bool{},
-		stubsSeen: map[string]int{},
-		shape:     map[string]int{},
-		kfHits:    map[string]int{},
-		knownFindings: map[string]bool{},
-		witnessEvery: 0,
-		domCheckEvery: 64,
-		noDom: os.Getenv("GOSYMX_NODOM") != "",
+		reach:          map[string]int{},
+		funcsSeen:      map[*ssa.Function]bool{},
+		stubsSeen:      map[string]int{},
+		shape:          map[string]int{},
+		kfHits:         map[string]int{},
+		knownFindings:  map[string]bool{},
+		witnessEvery:   0,
+		domCheckEvery:  64,
+		noDom:          os.Getenv("GOSYMX_NODOM") != "",
 	}
 	in.errorType = types.Universe.Lookup("error").Type()
 	in.intrinsics = map[string]func(in *Interp, fr *frame, args []Val) Val{}
@@ -436,7 +436,9 @@ func (in *Interp) callFunction(caller *frame, fn *ssa.Function, args []Val, env 
 	}
 	fi.calls++
 	if fi.intrinsic != nil {
-		return fi.intrinsic(in, caller, args)
+		if r := fi.intrinsic(in, caller, args); r != notHandled {
+			return r
+		}
 	}
 	if in.initMode && fn.Pkg != nil && !initAllow[fn.Pkg.Pkg.Path()] {
 		return in.zeroResult(fn.Signature)
@@ -487,11 +489,17 @@ func (in *Interp) zeroResult(sig *types.Signature) Val {
 	return in.zero(sig.Results())
 }
 
+// notHandled is returned by an intrinsic that declines a call: the real body
+// is interpreted instead.
+type notHandledT struct{}
+
+var notHandled Val = notHandledT{}
+
 var initAllow = map[string]bool{
 	"errors": true, "io": true, "bufio": true, "bytes": true, "strings": true, "strconv": true,
 	"unicode": true, "unicode/utf8": true, "sort": true, "slices": true, "cmp": true, "path": true,
 	"math": true, "math/bits": true, "internal/stringslite": true, "internal/bytealg": false,
-	"github.com/jessevdk/go-flags": true, "unicode/utf16": true, "internal/itoa": true,
+	"github.com/jessevdk/go-flags": true, "unicode/utf16": true, "internal/itoa": true, "time": true,
 }
 
 func (in *Interp) initAllowed(path string) bool { return initAllow[path] }
